@@ -206,10 +206,19 @@ type vhStallConn struct {
 
 func (c *vhStallConn) block() {
 	c.ctx.fire()
-	if !c.closed {
+	// natively the context package runs an AfterFunc callback on a goroutine of its
+	// own: give it a moment (in the engine a go statement runs to completion at
+	// once and Sleep is a no-op)
+	for i := 0; vIsNative() && i < 5000 && !c.isClosed(); i++ {
+		time.Sleep(100 * time.Microsecond)
+	}
+	if !c.isClosed() {
 		c.hung = true // nobody is watching the context for this call
 	}
 }
+
+//go:noinline
+func (c *vhStallConn) isClosed() bool { return c.closed }
 
 func (c *vhStallConn) Read(p []byte) (int, error) {
 	c.calls++
